@@ -2,7 +2,10 @@ module verifharness
 
 go 1.23
 
-require github.com/modernizing/coca v0.0.0
+require (
+	github.com/awalterschulze/gographviz v0.0.0-20190522210029-fa59802746ab
+	github.com/modernizing/coca v0.0.0
+)
 
 require github.com/yourbasic/radix v0.0.0-20180308122924-cbe1cc82e907 // indirect
 
